@@ -158,4 +158,12 @@ def route (net : Net) (cur : Node) (p : Packet) : List (Node Ã— Node) Ã— (Node Ã
 def socketGetsNotice (me : Node) (svc : Svc) (n : NoticeBody) : Bool :=
   n.fromNode == me && n.fromSvc == svc
 
+/-- the nodes of a mesh (numbered from `k`) that treat a datagram addressed to `target` as their own:
+the local-dispatch test of `handleMessageData` is equality of the node IDs as byte strings -/
+def addresseesFrom (k : Nat) : List Node â†’ Node â†’ List Nat
+  | [], _ => []
+  | id :: rest, t => (if id = t then [k] else []) ++ addresseesFrom (k + 1) rest t
+
+def addressees (ids : List Node) (target : Node) : List Nat := addresseesFrom 0 ids target
+
 end Receptor.Forward
